@@ -98,7 +98,7 @@ Qed.
 Lemma a2r_ref_expected W ins : a2r_ref_obs (a2r_ref_run W ins) = a2r_expected W ins.
 Proof.
   unfold a2r_ref_obs, a2r_expected. pose proof (a2r_data_hist_ok W ins) as H.
-  rewrite <- (a2r_active_hist_ok W). destruct (a2r_data_hist W (rev ins)); inversion H as [[H1 H2]]; rewrite H2; reflexivity.
+  rewrite <- (a2r_active_hist_ok W). destruct (a2r_data_hist W (rev ins)); injection H as H1 H2; rewrite H1, H2; reflexivity.
 Qed.
 
 (* FULL STATEMENT: after every schedule, at every width, the gate-level block shows exactly what the history says *)
